@@ -262,7 +262,7 @@ Proof.
       cbn [ru bind fst snd]. eexists _, _. split; [reflexivity|]. auto.
 Qed.
 
-Lemma op_setfromstring s i vals : inv s -> RS s (OSetFromString i vals).
+Lemma op_setfromstring s i text : inv s -> RS s (OSetFromString i text).
 Proof.
   intros Hi. unfold refines_step, cstep, astep. rewrite a_live_abs.
   destruct (is_live s i) eqn:El; [|skip_case].
@@ -270,13 +270,13 @@ Proof.
   destruct (own_block_spec fresh s i b Hi Hb) as (s2 & b2 & id & k & -> & S2 & Em & _ & Hk & Hrc). cbn [bind].
   pose proof S2 as (I2 & G2 & _ & _). change DMX_UNIVERSE_SIZE with 512.
   destruct (inv_blk _ _ _ I2 Hk) as (Lk & _).
-  destruct vals as [|x r].
+  destruct text as [|x r].
   - destruct (set_len_spec s2 i b2 0 I2 G2) as (s3 & -> & Hh & S3); [congruence|lia|].
     cbn [rb bind fst snd]. eexists _, _. split; [reflexivity|].
     assert (S : step_ok s s3 i _) by (eapply step_ok_trans; eauto).
     eapply step_ok_abs in S as (I' & A'); [split; [exact I'|split; [exact A'|reflexivity]]|].
     unfold abs_buf. cbn [m_blk m_len]. rewrite Em, Hh, Hk. reflexivity.
-  - set (w := take 512 (x :: r)).
+  - set (w := take 512 (sfs_values (x :: r))).
     assert (Lw : len w <= 512) by (unfold w; rewrite len_take; lia).
     rewrite G2. cbn [bind]. rewrite Em.
     destruct (bwrite_spec s2 i b2 id k 0 w I2 G2 Em Hk Hrc) as (s3 & -> & S3 & Hk3); [lia|]. cbn [bind].
@@ -287,6 +287,16 @@ Proof.
     eapply step_ok_abs in S as (I' & A'); [split; [exact I'|split; [exact A'|reflexivity]]|].
     unfold abs_buf. cbn [m_blk m_len]. rewrite Em, Hh, Hk3. cbn [b_data]. f_equal.
     apply take_splice0. lia.
+Qed.
+
+Lemma op_newstr s i l : inv s -> RS s (ONewStr i l).
+Proof.
+  intros Hi. unfold refines_step, cstep, astep. rewrite a_raw_abs.
+  destruct (is_raw s i) eqn:Er; [|skip_case].
+  destruct (construct_default s i Hi Er) as (I0 & A0 & G0 & _ & _). cbn zeta in *.
+  destruct (set_ptr_ext fresh _ i _ l (len l) I0 G0) as (s' & -> & I' & A'); [lia|]. cbn [bind fst snd].
+  eexists _, _. split; [reflexivity|]. split; auto. split; auto.
+  rewrite A', A0, upd_upd, take_min_len. reflexivity.
 Qed.
 
 End WithFresh.
